@@ -411,7 +411,7 @@ def c04_r2(ctx):
         ctx.error(f"only {writes} write sites found")
 
 
-@rule("C04.R3", "file-name collisions are detected over everything that is written, before anything is written", min_instances=4)
+@rule("C04.R3", "file-name collisions are detected over everything that is written, before anything is written", min_instances=4, also=["C18"])
 def c04_r3(ctx):
     repo = ctx.repo
     pg = repo.cls(PG)
